@@ -45,6 +45,11 @@ func outDir() string {
 		os.MkdirAll(d, 0o755)
 		return d
 	}
+	if os.Getenv("VERIF_OUT_SCRATCH") != "" { // author's mutation runs: do not overwrite the committed evidence
+		d := filepath.Join(os.TempDir(), "verif-screen", "repo")
+		os.MkdirAll(d, 0o755)
+		return d
+	}
 	return verifDir
 }
 
